@@ -211,8 +211,24 @@ Example C09_optimal_nonvacuous :
   option_map r_score (align_pair false sc [x41; x43; x47; x54; x54; x41; x43; x47; x54; x41; x43] [x41; x43; x47; x54; x41; x43; x47; x47; x54; x41; x43]) = Some 60.
 Proof. cbn [sc_open sc_extend]. unfold NEG. split; [lia|]. split; [lia|]. split; [lia|]. vm_compute. reflexivity. Qed.
 
+(* one half of the remaining clause: the rows RETURNED by the trace-back never score more than the reported score (they are
+   a valid local alignment, the reported score is the optimum) *)
+Theorem C09_aligner_rows_score_partial :
+  forall sc s1 s2 r,
+  sc_open sc <= sc_extend sc -> sc_extend sc < 0 -> NEG <= sc_open sc ->
+  align_pair false sc s1 s2 = Some r ->
+  score_cols (sub_of sc (pick_matrix s1 s2)) (sc_open sc) (sc_extend sc) (r_row1 r) (r_row2 r) 0 <= r_score r.
+Proof.
+  intros sc s1 s2 r H1 H2 H3 H4.
+  destruct (align_pair_valid sc s1 s2 r H4) as [Hv _].
+  rewrite (align_pair_score_optimal sc s1 s2 r H1 H2 H3 H4).
+  exact (gotoh_dominates _ _ _ H1 H2 s1 s2 _ _ _ _ _ _ Hv).
+Qed.
+Print Assumptions C09_aligner_rows_score_partial.
+
 (* What remains a statement: the rows RETURNED by the trace-back score exactly the reported score (they are valid:
-   C09_aligner_returns_valid_alignment); it is proved on the finite domains above and judged per case by Corr/C09.v. *)
+   C09_aligner_returns_valid_alignment, and never score more: C09_aligner_rows_score_partial); the other inequality is
+   proved on the finite domains above and judged per case by Corr/C09.v. *)
 Definition C09_aligner_rows_score_statement : Prop :=
   forall sc s1 s2 r,
   sc_open sc <= sc_extend sc -> sc_extend sc < 0 -> align_pair false sc s1 s2 = Some r -> 0 < r_score r ->
